@@ -106,6 +106,12 @@ def gen_case(rng: random.Random, tier: str) -> dict:
             nspec += 1
         elif kind == "repeat" and ops:
             ops.append(dict(rng.choice([o for o in ops if o["op"] in ("mm", "formula_mm", "mat_mm", "replay")] or [ops[0]])))
+    if rng.random() < 0.4:  # the quoted column is capitalised / non-ASCII: spelling must not matter
+        ren = rng.choice([{"b m": "B m", "b_m": "B_m"}, {"b m": "Ünit m", "b_m": "Ünit_m"}])
+        for fr in frames:
+            for c in fr["cols"]:
+                c[0] = ren.get(c[0], c[0])
+        formulas = [fm.replace("b m", ren["b m"]) for fm in formulas]
     return {"frames": frames, "formulas": formulas, "ops": ops, "hashseed": rng.choice([1, 2, 3, 7, 11, 42, 1234, 99999]),
             "order_seed": rng.randrange(1 << 30)}
 
